@@ -9,5 +9,7 @@ CONSTANTS
   N = 3
   Starts = {1, 2, 3}
   Modes = {"route"}
+  MaxMut = 2
+  DEV_SetterKeepsDistance = FALSE
   DEV_NoLoopGuard = TRUE
 INVARIANT InvSound
